@@ -308,6 +308,15 @@ def run(tier, seed):
         for _ in range(600 if tier == "quick" else 12000):
             cmds = [c for c in c01_trace.gen_commands(rng, rng.randint(3, 20)) if not c[2]]      # (no completing z: written as a plain close)
             rnd.append({"random_d": c01_trace.to_d(cmds, rng), "seed": seed})
+        # consecutive points a tiny distance apart (rounding noise of a transform, 1e-5 .. 1e-12): the relative output then
+        # carries offsets that are written in exponent form
+        rnd.append({"random_d": "M 1,1 L 1.00000000025,1 L 3,4", "seed": seed})
+        for _ in range(200 if tier == "quick" else 4000):
+            x, y = rng.randint(-50, 50), rng.randint(-50, 50)
+            k = rng.randint(5, 12)
+            dx, dy = rng.randint(1, 999) * 10.0 ** (-k - rng.randint(0, 2)), rng.randint(-999, 999) * 10.0 ** (-k - rng.randint(0, 2))
+            cmd = rng.choice(["L", "Q %d,%d" % (x + 3, y - 2), "C %d,%d %d,%d" % (x + 1, y + 4, x - 2, y + 1)])
+            rnd.append({"random_d": "M %d,%d %s %r,%r L %d,%d" % (x, y, cmd, x + dx, y + dy, x + 7, y - 3), "seed": seed})
         for case, r in engine.replay("harness.c07", rnd, chunk=100):
             run.record(case, r, key=r["class"])
         run.extra["random_paths"] = len(rnd)
